@@ -14,7 +14,7 @@ import (
 var splitLexemes = []string{
 	";", "a", "1", " ", "\n", "';'", "\";\"", "`;`", "''';\n'''", "r';\\''", "b\";\"",
 	"/*;*/", "/* c */", "--;\n", "-- c\n", "#;\n", "//;\n", "--c", "/*", "'", "`", "\\", "'\\;'", "- -", "/ *",
-	"select", "@p", ".", "\x00",
+	"select", "@p", ".", "\x00", "\f", "\t", "\r\n", "\u00a0",
 }
 
 // checkSplit evaluates C12's oracle on one input; returns signature->detail.
@@ -179,10 +179,27 @@ func C12(r *explore.Run) {
 	r.Explore(explore.Options{Space: "S1/split", MaxDev: -1,
 		Bound: fmt.Sprintf("all strings of length<=%d over %d symbols (%d)", k, len(spaces.SigmaSplit), spaces.Count(len(spaces.SigmaSplit), k))},
 		func(c *explore.Ctx) { body(c, spaces.Str(c, spaces.SigmaSplit, k)) })
+	r.Explore(explore.Options{Space: "S1b/bytes-around-semicolon", MaxDev: -1, SplitLen: 1,
+		Bound: fmt.Sprintf("every string of 0,1,2 arbitrary bytes; every byte value in %d contexts around ';'", len(splitByteContexts))},
+		func(c *explore.Ctx) {
+			k := c.ChooseFree(1 + len(splitByteContexts))
+			b := string([]byte{byte(c.ChooseFree(256))})
+			if k == 0 {
+				if k2 := c.ChooseFree(257); k2 > 0 {
+					b += string([]byte{byte(k2 - 1)})
+				}
+				body(c, b)
+				return
+			}
+			ctx := splitByteContexts[k-1]
+			body(c, ctx[0]+b+ctx[1])
+		})
 	r.Explore(explore.Options{Space: "S2/split-lexemes", MaxDev: -1,
 		Bound: fmt.Sprintf("all sequences of <=%d of %d lexemes (%d)", n+1, len(splitLexemes), spaces.Count(len(splitLexemes), n+1))},
 		func(c *explore.Ctx) { body(c, spaces.Str(c, splitLexemes, n+1)) })
 }
+
+var splitByteContexts = [][2]string{{"a;", "b"}, {"a", ";b"}, {"a ; ", " b"}, {"a;", ""}, {"", ";a"}, {"';", "';a"}, {"/*;", "*/;a"}, {"--;", "\n;a"}, {"`;", "`;a"}, {"a.", ";b"}}
 
 // splitPoisons end in unusual lexer states (error right after "ident .", inside a string, inside a comment).
 var splitPoisons = []string{"SELECT t.'abc", "a . ", "'", "x /*"}
